@@ -71,9 +71,26 @@ func checkC15(ctx *Ctx) {
 				n = r.Range(1, 5)
 			}
 			av := []string{name, cmd}
+			longList := n > 8 && pools[name] != nil && len(pools[name].Strs) > 0
+			oddAt := -1
+			if longList && r.Chance(40) {
+				oddAt = n - 1
+				if r.Chance(50) {
+					oddAt = r.Intn(n)
+				}
+			}
 			for k := 0; k < n; k++ {
 				var a string
 				switch {
+				case longList && k != oddAt:
+					// a long list of valid versions (with at most one other element, see oddAt)
+					a = pools[name].Strs[r.Intn(len(pools[name].Strs))]
+					av = append(av, a)
+					continue
+				case longList:
+					a = r.Pick(odd)
+					av = append(av, a)
+					continue
 				case name == "vers" && k == 0 && r.Chance(80):
 					sch := schemeNames[r.Intn(len(schemeNames))]
 					p := pools[schemeEco[sch]]
@@ -137,6 +154,16 @@ func checkC15(ctx *Ctx) {
 			if !ok {
 				res.violate(Violation{Eco: name, Kind: "cli-sort-format", Input: av, Expected: "space-separated quoted strings", Actual: got.Out})
 			} else {
+				// each printed token is the %q rendering of the text it denotes (what the CLI
+				// documents and its tests show: Go-syntax quoting, printable characters verbatim)
+				line := strings.TrimSuffix(got.Out, "\n")
+				var want2 []string
+				for _, s := range out {
+					want2 = append(want2, fmt.Sprintf("%q", s))
+				}
+				if exp := strings.Join(want2, " "); exp != line {
+					res.violate(Violation{Eco: name, Kind: "cli-sort-quoting", Input: av, Expected: exp, Actual: line})
+				}
 				ov := make([]any, 0, len(out))
 				for _, s := range out {
 					if pr := e.Parse(s); pr.OK {
